@@ -318,8 +318,9 @@ def chk_drain_full(F, E, body, s):
 
 
 def chk_drain_found_index(F, E, body, s):
-    """drain(i..) where i was found by enumerate() over the same vector."""
-    return any("RangeFrom" in g for g in s.call.gargs) and "enumerate" in " ".join(c.callee for c in body.calls())
+    """drain(i..) where i was found by enumerate() / position() / rposition() over the same vector."""
+    finders = [c for c in body.calls() if c.callee.split("::")[-1] in ("enumerate", "position", "rposition")]
+    return any("RangeFrom" in g for g in s.call.gargs) and bool(finders)
 
 
 def chk_stop_evaluating(F, E, body, s):
@@ -452,9 +453,11 @@ def chk_analyzer_errloc(F, E, body, s):
 
 def chk_analyzer_numbered(F, E, body, s):
     """log_access' try_into().unwrap(): statements are analysed only at numbered locations."""
-    run = F.one("SourceFileAnalyzer::run")
-    if run is None:
+    # the function that drives the analysis of the stored program (SourceFileAnalyzer::run or a helper of it)
+    drivers = {b.path for b, _ in callers_of(F, "StatementAnalyzer::new")}
+    if len(drivers) != 1 or "source_file_analyzer::SourceFileAnalyzer::" not in next(iter(drivers)):
         return False
+    run = F.bodies[next(iter(drivers))]
     news = run.calls_to("StatementAnalyzer::new")
     rf = run.calls_to("Program::run_from_first_numbered_line")
     if not news or not rf or not all(run.dominates(rf[0].bb, n.bb) for n in news):
@@ -463,9 +466,6 @@ def chk_analyzer_numbered(F, E, body, s):
     if not any(run.dominates(h.bb, n.bb) for h in ht for n in news):
         return False
     # nobody else builds analyzers
-    cs = [b.path for b, _ in callers_of(F, "StatementAnalyzer::new")]
-    if any(not sfx(c, "SourceFileAnalyzer::run") for c in cs):
-        return False
     # analysing a statement never moves the line
     root = F.one("StatementAnalyzer::evaluate_statement")
     for (k, p) in E.info[root.path].writes:
